@@ -222,9 +222,10 @@ Definition conv_out (s : schema) (c : cas) (tn : tname) (f : fsobj) (n : string)
 Definition enc_feature (s : schema) (c : cas) (tn : tname) (f : fsobj) (fd : fdecl) : res contrib :=
   if memb (fd_name fd) ["xmiID"; "type"] then Ok c_none else      (* _COMMON_FIELD_NAMES *)
   let n := fd_xname fd in                                         (* reserved-name stripping *)
-  match slot f (fd_name fd) with
+  let v0 := slot f (fd_name fd) in
+  match v0 with
   | VNone => Ok c_none                                            (* `if value is None: continue` *)
-  | v0 => do v <- conv_out s c tn f n v0 ;; enc_value s c n (fd_range fd) (wbranch s fd) v
+  | _ => do v <- conv_out s c tn f n v0 ;; enc_value s c n (fd_range fd) (wbranch s fd) v
   end.
 
 (* _serialize_feature_structure, given the namespace the element ends up in *)
@@ -427,9 +428,10 @@ Definition offset_okb (s : schema) (c : cas) (tn : tname) (f : fsobj) (fd : fdec
   else true.
 Definition feat_okb (s : schema) (c : cas) (ids : list Z) (tn : tname) (f : fsobj) (fd : fdecl) : bool :=
   negb (memb (fd_name fd) ["xmiID"; "type"]) && kind_agreeb s fd &&
-  match slot f (fd_name fd) with
+  let v := slot f (fd_name fd) in
+  match v with
   | VNone => true
-  | v => value_okb s c ids fd v && offset_okb s c tn f fd v
+  | _ => value_okb s c ids fd v && offset_okb s c tn f fd v
   end.
 Fixpoint nodups (l : list string) : bool := match l with [] => true | x :: r => negb (memb x r) && nodups r end.
 Definition tname_okb (tn : tname) : bool :=
